@@ -29,7 +29,7 @@ enum FaultKind
     F_UNREADABLE = 2,
     F_TRUNCATE = 3, // a = class 0..6
     F_READFAIL = 4, // a = class 0..6, b = flavour (0 EOF, 1 exception)
-    F_REPLACE = 5, // a = 0 html, 1 garbage, 2 empty, 3 directory, 4 CellML 1.1
+    F_REPLACE = 5, // a = 0 html, 1 garbage, 2 empty, 3 directory, 4 CellML 1.1, 5 noisy 2.0, 6 noisy 1.1
     F_REFBREAK = 6, // a = import element index inside the file
     F_BACKEDGE = 7, // file/a identify the import whose chain end is turned into an import of it
     F_UNITSCYCLE = 8, // a = pick
@@ -106,7 +106,7 @@ std::vector<Fault> singleFaults(const Graph &g)
         out.push_back({F_READFAIL, long(f), 4, 0});
         out.push_back({F_READFAIL, long(f), 4, 1});
         out.push_back({F_READFAIL, long(f), 6, 1});
-        for (long t = 0; t < 5; ++t) {
+        for (long t = 0; t < 7; ++t) {
             out.push_back({F_REPLACE, long(f), t, 0});
         }
         out.push_back({F_UNITSCYCLE, long(f), 0, 0});
@@ -374,7 +374,7 @@ struct World
             tag += std::string((f.b % 2) != 0 ? "-throw" : "-eof") + (v.cut >= v.completeAt ? "-after-root-end" : "");
             break;
         case F_REPLACE:
-            switch (((f.a % 5) + 5) % 5) {
+            switch (((f.a % 7) + 7) % 7) {
             case 0:
                 v.load = Load::NONCELLML;
                 v.text = "<?xml version=\"1.0\"?>\n<html xmlns=\"http://www.w3.org/1999/xhtml\"><body><p>not a model</p></body></html>\n";
@@ -393,10 +393,28 @@ struct World
                 v.load = Load::EMPTY;
                 tag += "-directory";
                 break;
-            default:
+            case 4:
                 v.load = Load::CELLML11;
                 v.text = render11(spec);
                 tag += "-cellml11";
+                break;
+            case 5: {
+                FileSpec noisy = spec;
+                noisy.noise = true;
+                v.load = Load::NOISY20;
+                v.text = render(noisy);
+                tag += "-noisy20";
+                ctx.count("fault_benign_noise");
+                break;
+            }
+            default: {
+                FileSpec noisy = spec;
+                noisy.noise = true;
+                v.load = Load::NOISY11;
+                v.text = render11(noisy);
+                tag += "-noisy11";
+                ctx.count("fault_benign_noise");
+            }
             }
             break;
         case F_REFBREAK: {
@@ -500,6 +518,13 @@ struct World
         }
         default:
             return;
+        }
+        if (v.load == Load::NOISY20 || v.load == Load::NOISY11) {
+            // reach probe: the noise really makes the parser report errors (and, for 1.x, messages) that the importer then has to delete
+            auto probe = Parser::create(false);
+            probe->parseModel(v.text);
+            ctx.count("probe_noise_document_parser_errors", long(probe->errorCount()));
+            ctx.count("probe_noise_document_parser_messages", long(probe->messageCount()));
         }
         v.tag = tag;
         vfs.addVersion(v, path);
